@@ -15,6 +15,7 @@ import (
 	"strconv"
 	"strings"
 	"time"
+	"unicode/utf8"
 
 	craft "github.com/basekick-labs/arc/internal/cluster/raft"
 	"github.com/basekick-labs/arc/internal/verif/vh"
@@ -30,13 +31,7 @@ func safeByte(b byte) bool {
 		b == '_' || b == '.' || b == '/' || b == '*' || b == '@' || b == '+'
 }
 
-func tok(s string) string {
-	if s == "" {
-		return "-"
-	}
-	if len(s) >= 32 && safeByte(s[0]) && strings.Count(s, s[:1]) == len(s) {
-		return "^" + strconv.Itoa(len(s)) + "^" + s[:1]
-	}
+func encBytes(s string) string {
 	var b strings.Builder
 	for i := 0; i < len(s); i++ {
 		if safeByte(s[i]) {
@@ -46,6 +41,27 @@ func tok(s string) string {
 		}
 	}
 	return b.String()
+}
+
+// tok: "-" = empty; a run of one code point repeated >= 16 times = ^n^<unit>; else %-escaped bytes.
+func tok(s string) string {
+	if s == "" {
+		return "-"
+	}
+	rs := []rune(s)
+	if len(rs) >= 16 && utf8.ValidString(s) {
+		same := true
+		for _, r := range rs {
+			if r != rs[0] {
+				same = false
+				break
+			}
+		}
+		if same {
+			return "^" + strconv.Itoa(len(rs)) + "^" + encBytes(string(rs[0]))
+		}
+	}
+	return encBytes(s)
 }
 
 func b01(b bool) string {
@@ -526,8 +542,8 @@ var (
 	nodeIDs   = []string{"n1", "n2", "n3", "n4"}
 	goodPaths = []string{"db1/m/2026/f1.parquet", "db1/m/f2.parquet", "db2/cpu/f3.parquet", "f4"}
 	badPaths  = []string{"", "/etc/passwd", "s3://b/k", "db/../x", `C:\x`, "a\x00b", strings.Repeat("a", 4097), `db\..\y`, "file:/x"}
-	oddPaths  = []string{"db1/m/..f", "a..b/c", strings.Repeat("a", 4096), "é/f"}
-	dbs       = []string{"db1", "db2", "db1", ""}
+	oddPaths  = []string{"db1/m/..f", "a..b/c", strings.Repeat("a", 4096), "é/f", strings.Repeat("é", 2048), strings.Repeat("é", 2049), strings.Repeat("é", 4096)}
+	dbs       = []string{"db1", "db2", "db1", "", "dbé"}
 	permsU    = []string{"", "read", "read,write", " read , admin", "read,write,delete,admin", "root", "read,,write", "write\t"}
 	tokNames  = []string{"tA", "tB", "tC"}
 	orgNames  = []string{"acme", "globex"}
@@ -552,6 +568,9 @@ func (g *gen) node(id string) craft.NodeInfo {
 func (g *gen) nodeID() string {
 	if g.r.Chance(4) {
 		return ""
+	}
+	if g.r.Chance(3) {
+		return "nœud"
 	}
 	return vh.Pick(g.r, nodeIDs)
 }
@@ -580,15 +599,29 @@ func (g *gen) changed(universe []string) []string {
 	}
 	return out
 }
+
+// limitNames: strings around a byte limit, ASCII and multi-byte (bytes vs runes must not be confused)
+func limitNames(maxLen int) []string {
+	return []string{
+		strings.Repeat("x", maxLen-1), strings.Repeat("x", maxLen), strings.Repeat("x", maxLen+1),
+		strings.Repeat("é", maxLen/2),   // exactly maxLen bytes
+		strings.Repeat("é", maxLen/2+1), // maxLen+2 bytes, far fewer runes
+		strings.Repeat("é", maxLen*3/4), // ≤ maxLen runes, > maxLen bytes
+		strings.Repeat("é", maxLen),     // exactly maxLen runes, 2·maxLen bytes
+		strings.Repeat("€", maxLen/3), strings.Repeat("€", maxLen/3+1),
+		strings.Repeat("😀", maxLen/4), strings.Repeat("😀", maxLen/4+1),
+	}
+}
+
 func (g *gen) name(base []string, maxLen int) string {
 	r := g.r
 	switch {
 	case r.Chance(6):
 		return ""
+	case r.Chance(10):
+		return vh.Pick(r, limitNames(maxLen))
 	case r.Chance(4):
-		return strings.Repeat("x", maxLen+1)
-	case r.Chance(3):
-		return strings.Repeat("x", maxLen)
+		return vh.Pick(r, []string{"Zoë", "数据", "nœud"})
 	}
 	return vh.Pick(r, base)
 }
@@ -683,12 +716,12 @@ func (g *gen) build(idx uint64) op {
 	case "mktoken":
 		g.pending = &g.tokens
 		hash := vh.Pick(r, []string{"h1", "h2"})
-		if r.Chance(4) {
-			hash = vh.Pick(r, []string{"", strings.Repeat("h", 513)})
+		if r.Chance(6) {
+			hash = vh.Pick(r, append(limitNames(512), ""))
 		}
 		pfx := vh.Pick(r, []string{"p1", "p2"})
-		if r.Chance(4) {
-			pfx = vh.Pick(r, []string{"", strings.Repeat("p", 257)})
+		if r.Chance(6) {
+			pfx = vh.Pick(r, append(limitNames(256), ""))
 		}
 		return opMkToken(craft.TokenEntry{ID: vh.Pick(r, []int64{0, 0, 55}), Name: g.name(tokNames, 256), Description: vh.Pick(r, []string{"", "d"}),
 			Permissions: vh.Pick(r, permsU), TokenHash: hash, TokenPrefix: pfx, CreatedAtUnixNano: g.created(),
@@ -702,26 +735,26 @@ func (g *gen) build(idx uint64) op {
 		return opDelToken(g.pickID(g.tokens))
 	case "rotate":
 		hash := vh.Pick(r, []string{"h3", "h4"})
-		if r.Chance(5) {
-			hash = vh.Pick(r, []string{"", strings.Repeat("h", 513)})
+		if r.Chance(8) {
+			hash = vh.Pick(r, append(limitNames(512), ""))
 		}
 		pfx := vh.Pick(r, []string{"p1", "p2", "p3"})
-		if r.Chance(5) {
-			pfx = vh.Pick(r, []string{"", strings.Repeat("p", 257)})
+		if r.Chance(8) {
+			pfx = vh.Pick(r, append(limitNames(256), ""))
 		}
 		return opRotate(g.pickID(g.tokens), hash, pfx)
 	case "mkorg":
 		g.pending = &g.orgs
 		desc := vh.Pick(r, []string{"", "d"})
-		if r.Chance(3) {
-			desc = strings.Repeat("d", 1025)
+		if r.Chance(6) {
+			desc = vh.Pick(r, limitNames(1024))
 		}
 		return opMkOrg(craft.OrganizationEntry{ID: vh.Pick(r, []int64{0, 44}), Name: g.name(orgNames, 256), Description: desc, CreatedAtUnixNano: g.created(),
 			UpdatedAtUnixNano: vh.Pick(r, []int64{0, 0, 1500}), Enabled: r.Bool()})
 	case "updorg":
 		desc := vh.Pick(r, []string{"", "d2"})
-		if r.Chance(3) {
-			desc = strings.Repeat("d", 1025)
+		if r.Chance(6) {
+			desc = vh.Pick(r, limitNames(1024))
 		}
 		return opUpdOrg(g.pickID(g.orgs), g.name(orgNames, 256), desc, r.Bool(), vh.Pick(r, []int64{0, 3000}),
 			g.changed([]string{"name", "description", "enabled", "bogus", "name"}))
@@ -1103,6 +1136,14 @@ type runCfg struct {
 	quiet     bool  // emit "aq" (result only) instead of "ap" (result + dump) for every command
 	replayAt  []int // prefixes k at which a second run swaps to restore(snapshot) and continues
 	gaps      []int // log index increments (cycled); nil = 1
+	holdAt    []int // prefixes k after which Snapshot() is taken but Persist()ed only at the end of the history
+}
+
+type heldSnap struct {
+	k            int
+	snap         hraft.FSMSnapshot
+	restoredThen craft.VerifState
+	replay       string
 }
 
 type caseResult struct {
@@ -1128,6 +1169,7 @@ func runCase(c *vh.Ctx, ops []op, cfg runCfg) {
 	nontrivial := false
 	var canon strings.Builder
 	st := main.VerifState()
+	var holds []heldSnap
 	for i, o := range ops {
 		idx += cfg.step(i)
 		idxs[i] = idx
@@ -1203,10 +1245,50 @@ func runCase(c *vh.Ctx, ops []op, cfg runCfg) {
 			failAll(c, rbacOrphans(rs), replay.String()+"; snap")
 			failAll(c, indexFindings(rs), replay.String()+"; snap")
 		}
+		for _, k := range cfg.holdAt {
+			if k == i+1 && i != len(ops)-1 {
+				sn, err := main.Snapshot()
+				g, e := snapRestore(main) // reference: the same state persisted at once
+				if err != nil || e != "" {
+					continue
+				}
+				c.Op(fmt.Sprintf("hold %d", k), "ok")
+				holds = append(holds, heldSnap{k: k, snap: sn, restoredThen: g.VerifState(), replay: replay.String()})
+			}
+		}
 	}
 	finalDump := dumpState(st)
 	if cfg.quiet {
 		c.Op("dump", finalDump)
+	}
+	// snapshots taken earlier are persisted only now (hashicorp/raft runs Persist on another goroutine
+	// while Apply continues): what they restore to must be the state at the time of Snapshot()
+	for _, hd := range holds {
+		var restored *craft.ClusterFSM
+		e := vh.Guard(func() string {
+			sink := &memSink{}
+			if err := hd.snap.Persist(sink); err != nil {
+				return "persist:" + err.Error()
+			}
+			hd.snap.Release()
+			restored = newFSM()
+			if err := restored.Restore(io.NopCloser(bytes.NewReader(sink.Bytes()))); err != nil {
+				return "restore:" + err.Error()
+			}
+			return ""
+		})
+		if e != "" {
+			c.Op(fmt.Sprintf("held %d", hd.k), "error:"+e)
+			c.Fail("restore:error", e, hd.replay+"; …; held")
+			continue
+		}
+		rs := restored.VerifState()
+		c.Op(fmt.Sprintf("held %d", hd.k), dumpState(rs))
+		if d := diffSections(hd.restoredThen, rs); len(d) > 0 {
+			c.Fail("snapshot-not-isolated:"+strings.Join(d, ","),
+				fmt.Sprintf("a snapshot taken after %d commands but persisted after %d commands restores to a different state than the same snapshot persisted at once (sections %v): commands applied after Snapshot() leaked into it", hd.k, len(ops), d),
+				replay.String()+fmt.Sprintf("; [Snapshot() was taken after command %d, Persist() after the last]", hd.k))
+		}
 	}
 	// replay from a snapshot taken after prefix k must end in the same state as replay from empty
 	for _, k := range cfg.replayAt {
@@ -1341,4 +1423,44 @@ func enumerateOps(c *vh.Ctx, prefix, alpha []op, n int, cfg runCfg) int {
 var membershipKinds = map[string]int{
 	"mkorg": 4, "mkteam": 10, "mktoken": 8, "addmem": 30, "rmmem": 10, "delteam": 7, "delorg": 3, "deltoken": 4,
 	"updteam": 2, "mkrole": 3, "mkmperm": 2, "delrole": 1, "rotate": 1, "updtoken": 1,
+}
+
+// limitDirected: every named entity at every validator limit (bytes vs runes), on the create AND the
+// update path; each history is snapshot-and-restored after every command by the caller.
+func limitDirected() [][]op {
+	var out [][]op
+	tokE := func(n, h, p string) op {
+		return opMkToken(craft.TokenEntry{Name: n, Permissions: "read", TokenHash: h, TokenPrefix: p, CreatedAtUnixNano: 5})
+	}
+	for _, L := range limitNames(256) {
+		out = append(out, []op{
+			opMkOrg(craft.OrganizationEntry{Name: L, CreatedAtUnixNano: 5}),
+			mOrg("acme"), opUpdOrg(2, L, "", true, 0, []string{"name"}),
+			opMkTeam(craft.TeamEntry{OrganizationID: 2, Name: L, CreatedAtUnixNano: 5}),
+			mTeam(2, "core"), opUpdTeam(5, L, "", true, 0, []string{"name"}),
+			opMkRole(craft.RoleEntry{TeamID: 5, DatabasePattern: L, Permissions: "read", CreatedAtUnixNano: 5}),
+			mRole(5), opUpdRole(8, L, "", []string{"database_pattern"}),
+			opMkMPerm(craft.MeasurementPermissionEntry{RoleID: 8, MeasurementPattern: L, Permissions: "read", CreatedAtUnixNano: 5}),
+			tokE(L, "h", "p"), tokE("tA", "h", "p"), opUpdToken(12, L, "", "", 0, []string{"name"}),
+			tokE("tB", "h", L), opRotate(12, "h2", L),
+			mRole(5), mMem(12, 5),
+		})
+	}
+	for _, L := range limitNames(1024) {
+		out = append(out, []op{
+			opMkOrg(craft.OrganizationEntry{Name: "o1", Description: L, CreatedAtUnixNano: 5}),
+			mOrg("acme"), opUpdOrg(2, "", L, true, 0, []string{"description"}),
+			opMkTeam(craft.TeamEntry{OrganizationID: 2, Name: "t1", Description: L, CreatedAtUnixNano: 5}),
+			mTeam(2, "core"), opUpdTeam(5, "", L, true, 0, []string{"description"}),
+		})
+	}
+	for _, L := range limitNames(512) {
+		out = append(out, []op{tokE("tA", L, "p"), tokE("tB", "h", "p"), opRotate(2, L, "q")})
+	}
+	for _, L := range limitNames(4096) {
+		f := fileSpec{path: L, sha: "s", size: 1, db: "dbé", meas: "m", pt: 1700000000, origin: "nœud", tier: "hot", ct: 1700000100}
+		out = append(out, []op{opRegFile(f), opUpdFile(f), opBatch([]batchItem{{k: 'r', f: f}}), opDelFile(L, "x"),
+			opAddNode(craft.NodeInfo{ID: "nœud", Name: "Nœ", Role: "writer", State: "healthy"}), opPromote("nœud", "")})
+	}
+	return out
 }
